@@ -1139,3 +1139,15 @@ def loop_blocks(f, l):
         body.add(x)
         st.extend(p for p in f.preds.get(x, []) if p not in body)
     return body
+
+
+def flush_succeeded_at(f, e):
+    """A must-fact at event e says that an fflush() call returned 0 (`if (fflush(f) != 0) return false;` before it, or e sits
+    behind a conjunction `... && fflush(f) == 0`)."""
+    for k, (pol, a) in f.facts_at(e).items():
+        a = strip(a)
+        if isinstance(a, dict) and a.get('k') == 'bin' and a.get('op') in ('==', '!=') and const_value(a.get('r')) == 0 and \
+                isinstance(strip(a.get('l')), dict) and strip(a['l']).get('k') == 'call' and strip(a['l']).get('name') == 'fflush':
+            if (a['op'] == '==') == bool(pol):
+                return True
+    return False
